@@ -112,7 +112,7 @@ EXPORT errno_t _strcpyfldin_s_chk(char *dest, rsize_t dmax, const char *src,
     if (dest < src) {
         overlap_bumper = src;
 
-        while (dmax > 0 && *src) {
+        while (dmax > 0 && slen > 0 && *src) {
 
             if (unlikely(dest == overlap_bumper)) {
                 handle_error(orig_dest, orig_dmax,
@@ -121,12 +121,19 @@ EXPORT errno_t _strcpyfldin_s_chk(char *dest, rsize_t dmax, const char *src,
             }
 
             dmax--;
+            slen--;
             *dest++ = *src++;
+        }
+        /* the first null of the fill would land on the source */
+        if (unlikely(dmax > 0 && dest == overlap_bumper)) {
+            handle_error(orig_dest, orig_dmax,
+                         "strcpyfldin_s: overlapping objects", ESOVRLP);
+            return (ESOVRLP);
         }
     } else {
         overlap_bumper = dest;
 
-        while (dmax > 0 && *src) {
+        while (dmax > 0 && slen > 0 && *src) {
 
             if (unlikely(src == overlap_bumper)) {
                 handle_error(orig_dest, orig_dmax,
@@ -135,7 +142,14 @@ EXPORT errno_t _strcpyfldin_s_chk(char *dest, rsize_t dmax, const char *src,
             }
 
             dmax--;
+            slen--;
             *dest++ = *src++;
+        }
+        /* the terminator that stopped the copy lies in dest */
+        if (unlikely(dmax > 0 && slen > 0 && src == overlap_bumper)) {
+            handle_error(orig_dest, orig_dmax,
+                         "strcpyfldin_s: overlapping objects", ESOVRLP);
+            return (ESOVRLP);
         }
     }
 
